@@ -60,6 +60,7 @@ type msgWriter struct {
 	err             error
 	multiPartWriter [4]*multipart.Writer
 	partWriter      io.Writer
+	signing         bool // the message is rendered for the S/MIME signature
 	writer          io.Writer
 }
 
@@ -394,7 +395,7 @@ func (mw *msgWriter) addFiles(files []*File, isAttachment bool) {
 			}
 			sort.Strings(keys)
 			for _, key := range keys {
-				mw.writeHeader(Header(key), header[key]...)
+				mw.writePartHeader(Header(key), header[key]...)
 			}
 			mw.writeString(SingleNewLine)
 		}
@@ -450,10 +451,10 @@ func (mw *msgWriter) writePart(part *Part, charset Charset) {
 
 	if mw.depth == 0 {
 		if contentDescription != "" {
-			mw.writeHeader(HeaderContentDescription, contentDescription)
+			mw.writePartHeader(HeaderContentDescription, contentDescription)
 		}
-		mw.writeHeader(HeaderContentTransferEnc, contentTransferEnc)
-		mw.writeHeader(HeaderContentType, contentType)
+		mw.writePartHeader(HeaderContentTransferEnc, contentTransferEnc)
+		mw.writePartHeader(HeaderContentType, contentType)
 		mw.writeString(SingleNewLine)
 	}
 	if mw.depth > 0 {
@@ -483,6 +484,26 @@ func (mw *msgWriter) writeString(s string) {
 	var n int
 	n, mw.err = io.WriteString(mw.writer, s)
 	mw.bytesWritten += int64(n)
+}
+
+// writePartHeader writes a header of a part or file that is the only content of the message.
+//
+// The header is folded like any other header of the message. In the rendering that is used for
+// the S/MIME signature it is written the way the multipart writer writes the header of a part,
+// since the signed part is sent within a multipart/signed message and has to be identical to
+// the part that has been signed.
+//
+// Parameters:
+//   - key: The Header key to be written.
+//   - values: A variadic parameter representing the values associated with the header.
+func (mw *msgWriter) writePartHeader(key Header, values ...string) {
+	if !mw.signing {
+		mw.writeHeader(key, values...)
+		return
+	}
+	for _, value := range values {
+		mw.writeString(fmt.Sprintf("%s: %s%s", key, value, SingleNewLine))
+	}
 }
 
 // writeHeader writes a header into the msgWriter's io.Writer.
